@@ -65,6 +65,22 @@ impl<T> ProgressNonAsyncFuture<T> {
         }
     }
 
+    /// verification hook: block until the task's thread has finished (so that the next poll returns Done or Err)
+    #[cfg(adlt_verif)]
+    pub fn verif_wait_finished(&self, timeout_ms: u64) -> bool {
+        let deadline = std::time::Instant::now() + std::time::Duration::from_millis(timeout_ms);
+        while let Some(thread) = &self.thread {
+            if thread.is_finished() {
+                return true;
+            }
+            if std::time::Instant::now() > deadline {
+                return false;
+            }
+            std::thread::sleep(std::time::Duration::from_millis(1));
+        }
+        true
+    }
+
     /// indicate the async task to cancel
     ///
     /// Afterwards you can wait until poll returns Done or Err
